@@ -20,6 +20,8 @@ import (
 
 	spectypes "github.com/bloxapp/ssv-spec/types"
 
+	"github.com/bloxapp/ssv/operator/duties/dutystore"
+
 	"github.com/bloxapp/ssv/zz_verif/lib/hx"
 )
 
@@ -266,7 +268,15 @@ func replay(run *hx.Run, lines []string) {
 			if v, ok := kvOf(ws, "fork"); ok && v == "1" {
 				fork = true
 			}
-			c = NewCase(run, world(n), fork, "replay")
+			if v, ok := kvOf(ws, "own"); ok && v == "1" {
+				c = NewCaseWithStore(run, world(n), dutystore.New(), "replay")
+			} else {
+				c = NewCase(run, world(n), fork, "replay")
+			}
+		case "duties":
+			if c != nil {
+				c.ReplayDuties(ws)
+			}
 		case "v":
 			if c == nil {
 				c = NewCase(run, world(4), false, "replay")
